@@ -52,6 +52,7 @@ type FuncContract struct {
 	Inline   bool
 	Trusted  bool // contract assumed, body not verified (listed as assumption)
 	NoSafety bool
+	FrameOnly bool // only frame/initialisation obligations (no SMT obligations are generated)
 	Requires []*Clause
 	Ensures  []*Clause
 	Panics   *Clause
@@ -96,7 +97,7 @@ type Contracts struct {
 	File    string
 }
 
-var keywordRe = regexp.MustCompile(`^(spec|axiom|lemma|func|props|tier|arith|pure|inline|trusted|nosafety|requires|ensures|expect|panics|modifies|loop|ghost|assert)\b`)
+var keywordRe = regexp.MustCompile(`^(spec|axiom|lemma|func|props|tier|arith|pure|inline|trusted|nosafety|requires|ensures|expect|panics|modifies|loop|ghost|assert|replaces|initfields|frameonly)\b`)
 var labelRe = regexp.MustCompile(`^\[([A-Za-z0-9_.\-]+)\]\s*`)
 
 func (c *Contracts) newClause(kind, text string, line int) *Clause {
@@ -206,8 +207,12 @@ func ParseContracts(path string) (*Contracts, error) {
 				cur.Trusted = true
 			case "nosafety":
 				cur.NoSafety = true
+			case "frameonly":
+				cur.FrameOnly = true
 			case "ghost":
 				cur.Ghosts = append(cur.Ghosts, strings.TrimSpace(rest))
+			case "replaces", "initfields":
+				cur.Ghosts = append(cur.Ghosts, word+" "+strings.TrimSpace(rest))
 			case "requires":
 				cur.Requires = append(cur.Requires, c.newClause("requires", rest, it.line))
 			case "ensures":
